@@ -206,6 +206,7 @@ func baseDesc(r *simrt.Rng, o genOpts) *model.Desc {
 			if r.Chance(0.7) {
 				sa.DefaultDZ = fp([]float64{0, 0.05, 0.1, 0.15, 0.2, 0.25, 1.0 / 3, 0.5}[r.Intn(8)])
 			}
+			ccPerm := r.Perm(120)
 			for ai, an := range axisNames {
 				kind := o.axisKinds[ai%len(o.axisKinds)]
 				if o.axisKindsPerMapping && mi > 0 {
@@ -215,6 +216,12 @@ func baseDesc(r *simrt.Rng, o genOpts) *model.Desc {
 					continue
 				}
 				ax := drawAxis(r, an, kind, ai)
+				if ax.CC != nil {
+					ax.CC = ip(ccPerm[(ai*2+mi*40)%120])
+				}
+				if ax.CCNeg != nil {
+					ax.CCNeg = ip(ccPerm[(ai*2+1+mi*40)%120])
+				}
 				if o.edgeNotes && ax.Type == "key" && r.Chance(0.5) {
 					edge := []int{0, 1, 2, 3, 5, 122, 124, 125, 126, 127}
 					ax.Note = ip(edge[r.Intn(len(edge))])
